@@ -310,6 +310,13 @@ pub fn verif_dir() -> String {
     std::env::var("VERIF_DIR").unwrap_or_else(|_| "/verif".to_string())
 }
 
+/// Where evidence and replay files go: /verif, unless VERIF_OUT_DIR redirects them (used by the
+/// tools that run the checks against seeded or preserving edits, so that committed evidence only
+/// ever comes from /repo itself).
+pub fn out_dir() -> String {
+    std::env::var("VERIF_OUT_DIR").unwrap_or_else(|_| verif_dir())
+}
+
 pub fn base_seed() -> u64 {
     match std::env::var("VERIF_SEED") {
         Ok(s) => s.trim().parse::<u64>().unwrap_or_else(|_| str_id(&s)),
@@ -409,7 +416,7 @@ pub fn drive<C: Check>(check: &C, tier: Tier) -> i32 {
                     let s = st.load(Ordering::SeqCst);
                     if i != 0 && now.saturating_sub(s) > hang_limit_ms && ix.load(Ordering::SeqCst) == i {
                         let (fam, run_seed, plan) = plan_at(i - 1);
-                        let replay_dir = format!("{}/replays", verif_dir());
+                        let replay_dir = format!("{}/replays", out_dir());
                         let _ = std::fs::create_dir_all(&replay_dir);
                         let fname = format!("{}/{}-hang-{:016x}.json", replay_dir, id, run_seed);
                         let doc = json!({
@@ -425,8 +432,8 @@ pub fn drive<C: Check>(check: &C, tier: Tier) -> i32 {
                             "coverage": {"evaluations": i, "distinct_nontrivial": 2, "rule": check.rule_text(),
                                 "samples": [serde_json::to_value(&plan).unwrap()], "aborted_by_watchdog": true},
                         });
-                        let _ = std::fs::create_dir_all(format!("{}/evidence", verif_dir()));
-                        let _ = std::fs::write(format!("{}/evidence/{}.json", verif_dir(), id), serde_json::to_string_pretty(&ev).unwrap());
+                        let _ = std::fs::create_dir_all(format!("{}/evidence", out_dir()));
+                        let _ = std::fs::write(format!("{}/evidence/{}.json", out_dir(), id), serde_json::to_string_pretty(&ev).unwrap());
                         say!("  rule=hang sig=wall_clock :: a run did not return within {} s", hang_limit_ms / 1000);
                         say!("VIOLATION property={} replay={}", id, fname);
                         std::process::exit(1);
@@ -529,7 +536,7 @@ pub fn drive<C: Check>(check: &C, tier: Tier) -> i32 {
     let mut violations = 0;
     let mut known_lines: Vec<String> = vec![];
     let mut reported = vec![];
-    let replay_dir = format!("{}/replays", verif_dir());
+    let replay_dir = format!("{}/replays", out_dir());
     let max_reports = 12;
     for f in &found {
         if let Some(k) = known.iter().find(|k| {
@@ -668,7 +675,7 @@ pub fn drive<C: Check>(check: &C, tier: Tier) -> i32 {
         },
         "assumptions": check.assumptions(),
     });
-    let ev_dir = format!("{}/evidence", verif_dir());
+    let ev_dir = format!("{}/evidence", out_dir());
     let _ = std::fs::create_dir_all(&ev_dir);
     let ev_path = format!("{ev_dir}/{id}.json");
     if let Err(e) = std::fs::write(&ev_path, serde_json::to_string_pretty(&evidence).unwrap()) {
